@@ -1,7 +1,9 @@
 import PolyVerif.Model.LineText
 /-
 Model of poly/io/gff (property C14), statement by statement, as the code is after commits
-988c96c and fdf6b17 (`strings.HasPrefix(line, "#")`: directives and comments are skipped):
+988c96c, fdf6b17 (`strings.HasPrefix(line, "#")`: directives and comments are skipped), 244ec83 (an
+empty attribute piece is skipped), 4e5b18b (a CR at the end of a line is dropped) and aac6dbd (the
+region line is the first line from the second on that begins with `##sequence-region`):
 
   gff.Parse   ↦ `parse`        gff.Build ↦ `build`
   poly.Feature.GetSequence on a feature without sub-locations and without the complement
@@ -66,6 +68,8 @@ def idx (xs : List Str) (i : Nat) : Outcome Str :=
 def parseAttrs : List Str → List (Str × Str) → Outcome (List (Str × Str))
   | [], m => .ok m
   | a :: as, m =>
+    if a = [] then parseAttrs as m      -- `if attribute == "" { continue }`
+    else
     let attributeSplit := split '=' a
     (idx attributeSplit 0).bind fun key =>
     (idx attributeSplit 1).bind fun value =>
@@ -108,11 +112,18 @@ def loop : List Str → PState → Outcome PState
   | [], st => .ok st
   | l :: ls, st => (step st l).bind (loop ls)
 
-/-- `gff.Parse` after `lines := strings.Split(gff, "\n")` -/
-def parseLines (lines : List Str) : Outcome Gff :=
-  -- metaString := lines[0:2]  (cap(lines) = len(lines) for the result of strings.Split)
+/-- `strings.TrimSuffix(line, "\r")` -/
+def trimCR (l : Str) : Str := if l.getLast? = some '\r' then l.dropLast else l
+
+/-- `gff.Parse` after the lines have been split and their CRs trimmed -/
+def parseTrimmed (lines : List Str) : Outcome Gff :=
+  -- versionString := lines[0]; regionString := lines[1]  (index panic with fewer than two lines)
   match lines with
-  | versionString :: regionLine :: _ =>
+  | versionString :: second :: rest =>
+    -- for _, line := range lines[1:] { if HasPrefix(line, "##sequence-region") { regionString = line; break } }
+    let regionLine := match (second :: rest).find? (fun l => hasPrefix sSeqRegion l) with
+      | some l => l
+      | none => second
     let regionStringArray := split ' ' regionLine
     (idx (split ' ' versionString) 1).bind fun gffVersion =>
     (idx regionStringArray 1).bind fun name =>
@@ -124,6 +135,9 @@ def parseLines (lines : List Str) : Outcome Gff :=
     .ok { name := name, gffVersion := gffVersion, regionStart := regionStart, regionEnd := regionEnd,
           size := regionEnd - regionStart, description := st.desc, seq := st.buf, features := st.feats }
   | _ => .panic
+
+/-- `gff.Parse` after `lines := strings.Split(gff, "\n")` -/
+def parseLines (lines : List Str) : Outcome Gff := parseTrimmed (lines.map trimCR)
 
 /-- `gff.Parse` -/
 def parse (file : Str) : Outcome Gff := parseLines (split '\n' file)
